@@ -131,7 +131,7 @@ pub fn custom_json() -> BoxedStrategy<String> {
             if let Some(k) = extra_key {
                 root.insert(k, serde_json::json!("x"));
             }
-            serde_json::Value::Object(root).to_string()
+            if root.is_empty() { String::new() } else { serde_json::Value::Object(root).to_string() }
         }),
     ]
     .boxed()
